@@ -1160,7 +1160,7 @@ M("C01", "kill-late", P2P,
   "kill-path phase after the walk")
 M("C01", "breaks-cond", P2P,
   "    update_nested_node_graph_with_break_points(node_graph)\n",
-  "    if events is not None:\n        update_nested_node_graph_with_break_points(node_graph)\n",
+  "    if len(node_graph.nodes) > 3:\n        update_nested_node_graph_with_break_points(node_graph)\n",
   "R1.1", "break-point phase conditional")
 M("C01", "no-merge-mark", CNG,
   "            node.update_event_types(PUMLEvent.MERGE)\n", "            pass\n",
@@ -1212,10 +1212,17 @@ def update_and_create_events_from_graph_solutions(""", "R1.3",
 M("C01", "no-dummy", P2P, "pv_stream, add_dummy_start=True, events=events",
   "pv_stream, add_dummy_start=False, events=events", "R1.4",
   "no dummy start on the public path")
-M("C01", "stale-graph", P2P,
+T("C01", "twin-graph-alias", P2P,
   "    node_graph = create_node_graph_from_event_graph(nested_loop_event_graph)",
   "    node_graph = create_node_graph_from_event_graph(initial_events_graph)",
-  "R1.5", "node graph built from the graph before loop extraction")
+  "detect_loops rewrites its argument in place: the name passed in is an "
+  "alias of the result (was listed as mutant stale-graph until a triage "
+  "showed `initial_events_graph is nested_loop_event_graph` always holds)")
+M("C01", "node-graph-from-unrewritten-copy", P2P,
+  "    nested_loop_event_graph = detect_loops(initial_events_graph)\n",
+  "    nested_loop_event_graph = detect_loops(deepcopy(initial_events_graph))\n"
+  "    nested_loop_event_graph = initial_events_graph\n",
+  "R1.5", "node graph built from a graph loop extraction never saw")
 T("C01", "twin-reorder", P2P,
   """    update_nested_node_graph_with_break_points(node_graph)
     # add loop kill paths to nested graphs
@@ -1416,14 +1423,22 @@ M("C01", "kill-args-swapped", "walk_puml_graph/find_and_add_loop_kill_paths.py",
             {start_point},""",
   """            {start_point},
             {end_point},""", "R1.7", "end and start points swapped")
-M("C05", "sep-index", PG,
+T("C05", "twin-sep-index", PG,
   """                        path_node = OPERATOR_PATH_FUNCTION_MAP[
                             node.operator_type
                         ](i)""",
   """                        path_node = OPERATOR_PATH_FUNCTION_MAP[
                             node.operator_type
-                        ](len(ordered_nodes) - 1)""", "R5.8",
-  "separator chosen by list length instead of branch index")
+                        ](len(ordered_nodes) - 1)""",
+  "0 exactly for the first branch either way (triaged: was listed as a mutant)")
+M("C05", "sep-before-first-branch", PG,
+  """                        path_node = OPERATOR_PATH_FUNCTION_MAP[
+                            node.operator_type
+                        ](i)""",
+  """                        path_node = OPERATOR_PATH_FUNCTION_MAP[
+                            node.operator_type
+                        ](i + 1)""", "R5.8",
+  "a separator in front of the first branch as well")
 M("C05", "end-not-joined", WALK,
   """    puml_graph.add_puml_edge(
         previous_puml_node,
@@ -1879,12 +1894,6 @@ M("C07", "start-edges-from-end-events", SGL,
   "for in_edge in graph.in_edges(loop.start_events)",
   "for in_edge in graph.in_edges(loop.end_events)", "R7.8",
   "a local named after the start events is built from the end events")
-M("C01", "sequence-children-truncated", NODE,
-  "        elif logic_tree.operator == Operator.SEQUENCE:\n"
-  "            for child in logic_tree.children:\n",
-  "        elif logic_tree.operator == Operator.SEQUENCE:\n"
-  "            for child in logic_tree.children[1:]:\n", "R1.10",
-  "the first child of a SEQUENCE node is not translated")
 M("C01", "gate-children-filtered", NODE,
   "            for child in logic_tree.children:\n"
   "                logic_operator_node._load_logic_into_logic_list(\n"
@@ -2492,10 +2501,11 @@ M("C05", "activity-line-without-name", PG,
   '''        blocks.append(f"{' ' * indent}:{self.node_type}{branch_info};")''',
   '''        blocks.append(f"{' ' * indent}:{self.node_id[0]}_{self.node_id[1]}{branch_info};")''',
   "R5.18", "activity line carries the occurrence-numbered node id")
-M("C05", "loop-node-not-registered", PG,
+T("C05", "twin-registration-only-without-body", PG,
   "        if parent_graph_node is not None:\n            self.add_parent_graph_node_to_node_ref(",
   "        if parent_graph_node is not None and sub_graph is None:\n            self.add_parent_graph_node_to_node_ref(",
-  "R5.18", "diagram nodes with a body are not registered under their model node")
+  "the registry is only read while bodies are attached, i.e. for nodes "
+  "created without a body (triaged: was listed as a mutant)")
 M("C05", "dummy-end-kept", PG,
   "            and node.node_type == DUMMY_END_EVENT",
   "            and node.node_type == DUMMY_START_EVENT", "R5.18",
